@@ -587,6 +587,7 @@ def handle_end_progs(state: TokenizerState) -> Iterator[TokenInfo]:
     if state.in_braces():
         return
 
+    pos = state.pos
     if state.in_fstring() or state.in_colon():
         yield from handle_fstring_progs(state, state.end_progs[-1])
         # else:
@@ -602,13 +603,13 @@ def handle_end_progs(state: TokenizerState) -> Iterator[TokenInfo]:
         return
 
     if (
-        (state.pos == 0)  # called at start of the line
+        (state.pos == 0 and state.in_colon())  # format spec continued at the start of the line
         or ((state.in_multi_line_string()) or (state.in_continued_string()))
     ):
         state.end_progs[-1].join_line(state)
         state.pos = state.max
-    # else:
-    #     raise TokenError(f"Invalid string quotes at {state.pos} in {state.line}", (state.lnum, state.pos))
+    elif state.pos == pos and not state.in_colon():  # nothing matched and the line does not continue
+        raise TokenError("unterminated string literal", state.end_progs[-1].start)
 
 
 def _tokenize(readline: Callable[[], str]) -> Iterator[TokenInfo]:
